@@ -81,6 +81,10 @@ pub enum Step {
     /// the transport reports a transient failure of this kind without consuming anything; the bytes
     /// are still there for the next read (a retryable condition: Interrupted, WouldBlock, a read timeout)
     Fail(io::ErrorKind),
+    /// the current piece of the stream is exhausted: this read fills nothing (what a slice reader does at its end)
+    /// although more of the stream follows. A caller that feeds the decoder one received slice after another keeps the
+    /// state and polls again with the next slice; here the same reader simply goes on.
+    End,
 }
 
 #[derive(Clone, Copy, Debug, PartialEq, Eq)]
@@ -121,6 +125,8 @@ pub struct ScriptedReader<'a> {
     pub last_transient: Rc<Cell<io::ErrorKind>>,
     /// a transient failure (as Step::Fail) that fires once, at the first read issued at or after this stream position
     pub fail_once_at: Option<(usize, io::ErrorKind)>,
+    /// number of artificial piece ends (Step::End) reported so far
+    pub ends: Rc<Cell<u64>>,
 }
 
 impl<'a> ScriptedReader<'a> {
@@ -143,6 +149,7 @@ impl<'a> ScriptedReader<'a> {
             transients: Rc::new(Cell::new(0)),
             last_transient: Rc::new(Cell::new(io::ErrorKind::Other)),
             fail_once_at: None,
+            ends: Rc::new(Cell::new(0)),
         }
     }
     pub fn with_fault(mut self, pos: usize, kind: io::ErrorKind) -> Self {
@@ -185,6 +192,13 @@ impl<'a> AsyncRead for ScriptedReader<'a> {
             }
             _ => step,
         };
+        if step == Some(Step::End) && me.pos < me.data.len() {
+            me.ends.set(me.ends.get() + 1);
+            if me.keep_log {
+                me.log.push(ReadRec { pos: me.pos, cap, got: Some(0) });
+            }
+            return Poll::Ready(Ok(()));
+        }
         if let Some(Step::Fail(kind)) = step {
             me.transients.set(me.transients.get() + 1);
             me.last_transient.set(kind);
